@@ -88,7 +88,7 @@ func (prop) Describe() core.Description {
 		RealComponents: []string{"go-geom root package: Bounds (NewBounds, Extend, Min, Max, Layout, IsEmpty, Overlaps, OverlapsPoint, Polygon, Clone), T.Bounds() of all seven types", "encoding/geojson (Marshal with EncodeGeometryWithBBox)"},
 		StubComponents: []string{"the network between message source and replicas (seeded delivery order and duplication)"},
 		FaultKinds:     []string{"reordered-delivery", "duplicate-delivery"},
-		Probes:         []string{"probe:xym-then-xyz", "probe:xyz-then-xym", "probe:xym-into-xyzm", "probe:xyz-into-xyzm", "probe:nested-collection-message", "probe:collection-message", "probe:empty-message-promotes-layout", "probe:mixed-layout-collection-bounds", "probe:push-into-nested-collection-after-bounds", "probe:layout>4-bounds", "probe:returned-polygon-scribbled", "probe:overlap-true", "probe:overlap-false", "probe:point-overlap-true", "probe:point-overlap-false", "probe:geojson-bbox-checked"},
+		Probes:         []string{"probe:xym-then-xyz", "probe:xyz-then-xym", "probe:xym-into-xyzm", "probe:xyz-into-xyzm", "probe:nested-collection-message", "probe:collection-message", "probe:empty-message-promotes-layout", "probe:mixed-layout-collection-bounds", "probe:push-into-nested-collection-after-bounds", "probe:layout>4-bounds", "probe:returned-polygon-scribbled", "probe:adjacent-boxes", "probe:overlap-true", "probe:overlap-false", "probe:point-overlap-true", "probe:point-overlap-false", "probe:geojson-bbox-checked"},
 	}
 }
 
@@ -802,6 +802,58 @@ func (prop) Execute(scAny any, phase string, log *core.Log) core.Result {
 				}
 			}
 			pts = append(pts, lo, hi, mix)
+			// ... and the nearest representable values just outside and just
+			// inside an edge (no tolerance belongs into an interval test)
+			for d := 0; d < a.Layout().Stride() && d < 4; d++ {
+				if math.IsInf(float64(hi[d]), 0) || math.IsInf(float64(lo[d]), 0) || a.Min(d) > a.Max(d) {
+					continue
+				}
+				out := append(mgeom.Coord(nil), hi...)
+				out[d] = mgeom.F(math.Nextafter(float64(hi[d]), math.Inf(1)))
+				in := append(mgeom.Coord(nil), lo...)
+				in[d] = mgeom.F(math.Nextafter(float64(lo[d]), math.Inf(-1)))
+				pts = append(pts, out, in)
+			}
+			// a second box that begins one representable value beyond this
+			// one's upper edge in one dimension, and one that begins exactly on it
+			if st := a.Layout().Stride(); st <= 4 && i < 3 {
+				for _, nudge := range []bool{true, false} {
+					args := make([]float64, 2*st)
+					ok := true
+					for d := 0; d < st; d++ {
+						args[d], args[st+d] = a.Min(d), a.Max(d)
+						if a.Min(d) > a.Max(d) || math.IsInf(a.Max(d), 0) {
+							ok = false
+						}
+					}
+					if !ok {
+						break
+					}
+					d0 := (i + len(pts)) % st
+					args[d0] = a.Max(d0)
+					if nudge {
+						args[d0] = math.Nextafter(a.Max(d0), math.Inf(1))
+					}
+					args[st+d0] = math.Nextafter(args[d0], math.Inf(1))
+					nb := geom.NewBounds(a.Layout()).Set(args...)
+					for _, l := range []geom.Layout{geom.XY, geom.XYZ, geom.XYZM} {
+						if l.Stride() > st {
+							continue
+						}
+						want := !(nudge && d0 < l.Stride())
+						var g1, g2 bool
+						if p := core.Guard(func() { g1, g2 = a.Overlaps(l, nb), nb.Overlaps(l, a) }); p != "" {
+							res.Fail("panic", "panic:overlaps:"+core.PanicSite(p), "Overlaps panicked: %s", p)
+							return res
+						}
+						if g1 != want || g2 != want {
+							res.Fail("overlaps-wrong", "overlaps-wrong:adjacent", "%s.Overlaps(%s, %s) = %v and the other way round %v, closed-interval arithmetic says %v (the second box begins %s the first one's upper edge in dimension %d)", describeBounds(a), l, describeBounds(nb), g1, g2, want, map[bool]string{true: "one representable value beyond", false: "exactly on"}[nudge], d0)
+							return res
+						}
+						res.Count("probe:adjacent-boxes", 1)
+					}
+				}
+			}
 		}
 		for _, pt := range pts {
 			a := all[i]
